@@ -850,7 +850,8 @@ def format_summary(obj: model.Documentable) -> Tag:
         # ParserErrors will likely be reported by the full docstring as well,
         # so don't spam the log, pass report=False.
         stan = safe_to_stan(parsed_doc, source.docstring_linker, source, report=False,
-                fallback=format_summary_fallback)
+                # The summary that is broken is the one of obj, which is not always the object the docstring is written in.
+                fallback=lambda errs, doc, _: format_summary_fallback(errs, doc, obj))
 
     return stan
 
